@@ -159,6 +159,9 @@ func (j *jsonBuilder) flattenObject(value *astjson.Value, path ast.Path) ([]*ast
 
 	result := make([]*astjson.Value, 0)
 	switch current.Type() {
+	case astjson.TypeNull:
+		// a null parent has no context entry and nothing to merge into
+		return result, nil
 	case astjson.TypeObject:
 		values, err := j.flattenObject(current, path[1:])
 		if err != nil {
